@@ -188,6 +188,19 @@ claimed["C08"] = (
     "the values destroyed by each operation equal the specification's. Partial: the whole-history conservation law is "
     "evaluated per history by the check, not yet proved as one theorem over all histories; destructor panics are C19.",
     "5.C08")
+claimed["C20"] = (
+    "The models are Gallina functions of the history, so whatever they compute depends on nothing else; the theorems "
+    "(closed under the global context) show that the orders do not come from anywhere but membership: two sets with the "
+    "same members are iterated in the same (ascending) order, and two joins whose members agree on every index visit the "
+    "same indices in the same order, whatever the storages' histories and representations. That the implementation "
+    "computes these functions is the correspondence of C01-C18; this check re-evaluates it between runs: every history "
+    "(entity churn, hash-map and all other storages, events, lazy updates, deletions, joins, change sets) is executed in "
+    "three processes (fresh hash seeds and address layout; in the third after other worlds and twice in a row) and on the "
+    "extracted model; results, handles, join rows, event streams, destroyed values and the ledger must be identical in "
+    "all runs and equal to the model's; save/load histories are run in two processes and their serialised data compared. "
+    "Partial: serialised output is compared as parsed data, not as bytes; the destruction order of HashMap::clear and of "
+    "a dropped World's resources is unspecified in the code and canonicalised (sorted) before comparing.", "5.C20")
+ENGINE["C20"] = "coq-world"
 REASONS = {}
 
 checks = []
@@ -214,7 +227,7 @@ m = {
                  "kind_free_text": "Coq model of specs::saveload (markers, serialise, deserialise) + two-world Rust executor"},
                 {"name": "coq-derive", "path": "coq/theories/SaveLoad", "serves_properties": ["C18"],
                  "kind_free_text": "Coq model of the derive macros' output + generated Rust crates carrying the real derives"},
-                {"name": "coq-world", "path": "coq/theories", "serves_properties": sorted(p for p in claimed if p not in ENGINE),
+                {"name": "coq-world", "path": "coq/theories", "serves_properties": sorted(p for p in claimed if ENGINE.get(p, "coq-world") == "coq-world"),
                  "kind_free_text": "Coq development (lifecycle spec, faithful allocator/storage/world models, refinement, "
                                    "property theorems) + extracted OCaml model + Rust correspondence harness"}],
     "checks": checks,
